@@ -42,6 +42,14 @@ INextNone ==
   /\ UNCHANGED <<remaining, mask, pristine>> /\ fresh' = FALSE
   /\ out' = [op |-> "next", ret |-> "none"]
 
+(* a consuming adaptor (count, last, fold, for_each): everything still owed under the mask is drawn at once; *)
+(* it reports how many moves that were and, for all but count, the last of them (any of them: order is open)  *)
+IDrain(cnt, hasLast, lastSet) ==        \* lastSet: the reported last move as a set of at most one element
+  /\ cnt = Cardinality(Avail(remaining, mask))
+  /\ hasLast => (IF Avail(remaining, mask) = {} THEN lastSet = {} ELSE (lastSet # {} /\ lastSet \subseteq Avail(remaining, mask)))
+  /\ remaining' = remaining \ Avail(remaining, mask) /\ pristine' = FALSE /\ fresh' = FALSE /\ UNCHANGED mask
+  /\ out' = [op |-> "drain", ret |-> cnt]
+
 (* len (and size_hint): exactly the number of moves still to come under the mask *)
 ILen ==
   /\ UNCHANGED <<remaining, mask, pristine, fresh>>
